@@ -519,6 +519,14 @@ def measure_accuracy(ctx: Ctx, pending):
             rad_ = math.sqrt(sum(c * c for c in xyz))
             near_ = abs(float(ref["exact"][2])) <= 1e5
             ctx.count("tangential-offset")
+            K_ = Consts(E)
+            q_ = math.sqrt(1 - K_.e2)
+            A_ = math.sqrt((q_ * math.hypot(xyz[0], xyz[1]) / K_.a) ** 2 + (xyz[2] / K_.a) ** 2)
+            if near_:
+                # the hypothesis of the proved bound (theorems near_surface_accuracy / near_of_height): |A - q| <= 0.0162
+                ctx.count("tangential-offset:near:" + ("inside-proved-box" if abs(A_ - q_) <= 0.0162 else "OUTSIDE-proved-box"))
+                if abs(A_ - q_) > 0.0162:
+                    gdisagree(ctx, "near_of_height: a point within 100 km has |A - q| <= 0.0162", case, 0.0162, abs(A_ - q_))
             worst["R_near" if near_ else "R_far"] = max(worst["R_near" if near_ else "R_far"], abs(R_mp))
             if not abs(abs(R_mp) - rt_mp) <= 1e-18 + 1e-12 * rt_mp:
                 gdisagree(ctx, "closed form R of the round-trip error (theorem roundtrip_error_partial) vs mpmath round trip", case, abs(R_mp), rt_mp)
@@ -1036,7 +1044,7 @@ def delta_empty_from_one(ctx, kind, ell, shape):
         gviolate(ctx, f"ellipsoid-lost:delta-empty_from:{kind}", f"the reference position of {type(d).__name__}.empty_from(d) is on {getattr(getattr(r, 'ellipsoid', None), 'name', '?')}, d.ref_pos is on {ell}", case)
 
 
-WRAPPER_KINDS = ["ndarray", "list", "position", "position-slice", "posvel.pos"]
+WRAPPER_KINDS = ["ndarray", "list", "int-ndarray", "int-list", "position", "position-slice", "posvel.pos"]
 
 
 def wrapper_one(ctx, rng, fname, kind, carried, explicit, shape):
@@ -1056,7 +1064,11 @@ def wrapper_one(ctx, rng, fname, kind, carried, explicit, shape):
     else:
         rows = llh_rows
     plain = as_shape(rows, shape)
-    has_carried = kind not in ("ndarray", "list")
+    has_carried = kind not in ("ndarray", "list", "int-ndarray", "int-list")
+    if kind.startswith("int-"):
+        # integer coordinates (whole metres / whole radians): converted like the equal-valued floats
+        rows = np.rint(np.asarray(rows, dtype=float)).tolist()
+        plain = as_shape(rows, shape)
     case = {"fn": "wrapper ellipsoid", "function": fname, "kind": kind, "carried": carried if has_carried else None, "explicit": explicit,
             "shape": shape, "rows": rows}
     ctx.case(case, nontrivial=has_carried and explicit is not None and explicit != carried)
@@ -1067,6 +1079,10 @@ def wrapper_one(ctx, rng, fname, kind, carried, explicit, shape):
             arg = plain.copy()
         elif kind == "list":
             arg = plain.tolist()
+        elif kind == "int-ndarray":
+            arg = plain.astype(np.int64)
+        elif kind == "int-list":
+            arg = plain.astype(np.int64).tolist()
         elif kind == "position":
             arg = Position(plain.copy(), system, ellipsoid=EA)
         elif kind == "position-slice":
@@ -1095,7 +1111,7 @@ def wrapper_one(ctx, rng, fname, kind, carried, explicit, shape):
     on = [n_ for n_ in names if same(got, per[n_])]
     # ---- oracle
     if decide not in on:
-        gviolate(ctx, f"wrapper-ellipsoid:{fname}:{'explicit-ignored' if explicit else ('carried-ignored' if has_carried else 'default')}",
+        gviolate(ctx, f"wrapper-ellipsoid:{fname}:{'explicit-ignored' if explicit else ('carried-ignored' if has_carried else 'default')}" + (":integer-input" if kind.startswith("int-") else ""),
                  f"{fname}(<{kind}" + (f" on {carried}" if has_carried else "") + f">, ellipsoid={explicit}) is the conversion on {on or '?'}, not on {decide} "
                  f"(max difference to the {decide} result {float(np.max(np.abs(got - per[decide]))) if got.shape == per[decide].shape else float('nan'):.3e})", case)
     # ---- correspondence
@@ -1110,7 +1126,7 @@ def check_wrappers(ctx: Ctx):
     names = list(ellipsoid._ELLIPSOIDS)
     # all (carried, explicit) pairs incl. no explicit argument, both functions, position objects; then the plain kinds; then random
     todo = [(fn_, "position", a_, b_, "nxk") for fn_ in ("trs2llh", "llh2trs") for a_ in names for b_ in names + [None]]
-    todo += [(fn_, k_, names[0], b_, sh) for fn_ in ("trs2llh", "llh2trs") for k_ in ("ndarray", "list") for b_ in names + [None] for sh in ("1d", "nxk")]
+    todo += [(fn_, k_, names[0], b_, sh) for fn_ in ("trs2llh", "llh2trs") for k_ in ("ndarray", "list", "int-ndarray", "int-list") for b_ in names + [None] for sh in ("1d", "nxk")]
     for _ in range(ctx.budget(150, 6000)):
         todo.append((rng.choice(["trs2llh", "llh2trs"]), rng.choice(WRAPPER_KINDS), rng.choice(names), rng.choice(names + [None]), rng.choice(["1d", "1xk", "nxk"])))
     for fn_, k_, a_, b_, sh in todo:
